@@ -227,8 +227,18 @@ def judge(ctx, text, cls, must_reject=None):
             job = ScriptJob.from_string(text)
             simnet.reset_log()
             env.MACHINE_STOPS.clear()
+            # (the front ends queue what from_string returns without looking
+            # at it: executing a job whose text was rejected does nothing --
+            # bounded, in case it does something after all)
+            bounded = runner.Run()
+            bounded.budget_exhausted = False
+            runner.install_budget(job, bounded, 2000)
+            job.execute()
             if job.program is not None:
-                job.execute()
+                ctx.violation('rejected:job-has-a-program',
+                              'a job made from a rejected text holds a program '
+                              'of {} instructions | {}'.format(
+                                  len(job.program), text[:300]), replay)
             evs = [e for e in simnet.LOG if e[0] in ('dev', 'lan', 'out')
                    and e[1] != 'flush']
             if evs:
